@@ -101,6 +101,14 @@ pub trait Sut {
     fn extra_initials(&self) -> Vec<Vec<u8>> {
         vec![]
     }
+    /// is a panic the documented behaviour of `op` on `pre` (e.g. a buffer shorter than the prefix)?
+    fn panic_expected(&self, _pre: &[u8], _op: &Op) -> bool {
+        false
+    }
+    /// property an unexpected panic violates
+    fn panic_property(&self) -> &'static str {
+        "C12"
+    }
     /// byte offset (mod 16) the buffer must start at (alignment of what follows an odd-sized prefix)
     fn skew(&self) -> usize {
         0
@@ -201,7 +209,9 @@ fn transition(
         });
     }
     if let Some(p) = &out_a.panic {
-        findings.push(Finding { property: "C12", what: format!("`{}` panicked: {}", op.text(), p) });
+        if !sut.panic_expected(pre, op) {
+            findings.push(Finding { property: sut.panic_property(), what: format!("`{}` panicked: {}", op.text(), p) });
+        }
     }
     if (sut.kind(op) == Kind::Query || sut.refused(op, &out_a)) && post_a != pre {
         findings.push(Finding {
